@@ -15,6 +15,13 @@ pub fn verif_dir() -> String {
     std::env::var("VERIF_DIR").unwrap_or_else(|_| "/verif".to_string())
 }
 
+/// where evidence and replay files go: /verif, except when a scratch copy of the repository is
+/// being checked (VERIF_OUT_DIR set by ./check under VERIF_REPO) - the committed evidence only
+/// ever describes runs against /repo itself
+fn out_dir() -> String {
+    std::env::var("VERIF_OUT_DIR").unwrap_or_else(|_| verif_dir())
+}
+
 fn io_dir() -> String {
     format!("{}/target/io", verif_dir())
 }
@@ -497,7 +504,7 @@ fn write_evidence(prop: &str, tier: &str, seed: u64, runs: u64, wall: f64, b: &B
         "wall_s": wall,
         "violations": violations,
     });
-    let dir = format!("{}/evidence", verif_dir());
+    let dir = format!("{}/evidence", out_dir());
     std::fs::create_dir_all(&dir).map_err(|e| e.to_string())?;
     let path = format!("{}/{}.json", dir, prop);
     std::fs::write(&path, serde_json::to_string_pretty(&ev).unwrap() + "\n").map_err(|e| format!("{}: {}", path, e))
@@ -562,7 +569,7 @@ pub fn cmd_run(args: &[String]) -> i32 {
         violations = 1;
         exit = 1;
         println!("sim: violation in run {} (seed {:#x}) oracle {} at step {}: {}", f.index, f.run_seed, f.oracle, f.step, f.detail);
-        let replay_dir = format!("{}/replays", verif_dir());
+        let replay_dir = format!("{}/replays", out_dir());
         let _ = std::fs::create_dir_all(&replay_dir);
         let replay = format!("{}/{}-{:016x}.json", replay_dir, prop, f.run_seed);
         let exe = std::env::current_exe().unwrap();
